@@ -1,6 +1,7 @@
 (** Statement pins for C17: the headline theorems must have exactly these types. *)
 From RsM Require Import Lib.MachInt Model.Headers Model.Codecs Model.CodecsSpec
-  Proofs.HeadersFacts Proofs.CodecsManual Props.C17.
+  Model.CodecsCheckin Model.CodecsBdx Model.CodecsBle Model.CodecsMdns
+  Proofs.HeadersFacts Proofs.CodecsManual Proofs.CodecsCheckinFacts Proofs.CodecsMdnsFacts Props.C17.
 Open Scope N_scope.
 
 Check (C17_plain_roundtrip : forall (h : plain_hdr) (rest : list N),
@@ -47,3 +48,38 @@ Check (C17_qr_total_in_range : forall s : list N,
   qr_decode s = Err E_INVDATA).
 Check (C17_status_report_roundtrip : forall r : status_report,
   sr_valid r = true -> sr_decode (sr_encode r) = Ok r).
+
+Check (C17_checkin_roundtrip : forall nonce_of aead_enc aead_dec,
+  aead_ideal nonce_of aead_enc aead_dec ->
+  forall (cap : nat) (counter : N) (app p : list N),
+  counter < two32 -> bytes app -> checkin_generate nonce_of aead_enc cap counter app = Ok p ->
+  checkin_parse nonce_of aead_dec p = Ok (counter, app)).
+Check (C17_checkin_canonical : forall nonce_of aead_enc aead_dec,
+  aead_ideal nonce_of aead_enc aead_dec ->
+  forall (p : list N) (c : N) (a : list N),
+  checkin_parse nonce_of aead_dec p = Ok (c, a) ->
+  c < two32 /\ bytes a /\ checkin_generate nonce_of aead_enc (length p) c a = Ok p).
+Check (C17_checkin_total : forall nonce_of aead_enc aead_dec,
+  aead_ideal nonce_of aead_enc aead_dec ->
+  forall p : list N, no_panic (checkin_parse nonce_of aead_dec p)).
+Check (C17_bdx_init_roundtrip : forall m : bdx_init,
+  init_wf m = true -> init_decode (init_encode m) = Ok m).
+Check (C17_bdx_init_total : forall b : list N, no_panic (init_decode b)).
+Check (C17_bdx_accept_roundtrip : forall m : bdx_accept,
+  accept_wf m = true -> accept_decode (a_receive m) (accept_encode m) = Ok m).
+Check (C17_bdx_block_canonical : forall (b : list N) (ctr : N) (data : list N),
+  bytes b -> block_decode b = Ok (ctr, data) ->
+  b = block_encode ctr data /\ ctr < two32 /\ bytes data).
+Check (C17_ble_adv_roundtrip : forall a : adv,
+  adv_valid a = true ->
+  adv_parse (adv_encode a) = Some a /\ adv_parse_service (adv_payload a) = Some a).
+Check (C17_mdns_txt_roundtrip : forall kvs : list (list N * list N),
+  Forall good_kv kvs -> txt_decode (txt_encode kvs) = kvs).
+Check (C17_mdns_commissionable_record_roundtrip : forall a : comm_adv,
+  comm_adv_valid a = true ->
+  txt_decode (txt_encode (comm_txt a)) = comm_txt a /\
+  txt_scan (comm_txt a) =
+    mkTF (Some (ca_disc a)) (Some (ca_vid a)) (Some (ca_pid a)) (ca_dt a)
+         (if ca_enhanced a then 2 else 1)).
+Check (C17_mdns_hex_id_roundtrip : forall v : N,
+  v < two64 -> parse_hex_u64 (hex16 v) = Some v).
